@@ -39,6 +39,11 @@ def step (seen : List (String × String)) (line : String) : List (String × Stri
     (seen, if expectedSites.any (fun p => p.1 == s) then "listed" else "UNEXPECTED-SITE")
   else
   match words line with
+  | ["actionmap", _, _, vals] =>
+      -- regenerated fact: the action numbers of a registered type map are pairwise distinct (hypothesis of
+      -- findByValue_order_irrelevant)
+      let vs := if vals == "-" then [] else vals.splitOn ","
+      (seen, if decide (vs.Nodup) then "injective" else "NOT-INJECTIVE")
   | ["sitecount", n] => (seen, if n.toNat? == some expectedSites.length then "ok" else s!"expected {expectedSites.length}")
   | ["sort", l] => match list? l with
       | some l => (seen, joinHex (sortI bytesLe l))
